@@ -233,12 +233,15 @@ def check_index_by_name(prog, res, f, positional_of_class, size_getters):
     pid = f.params[0]['id']
     R = Renderer(f)
     fors = [n for n in f.all_nodes({'ForStmt'})]
-    if len(fors) != 1:
-        res.viol('index-by-name', inst, f.loc(), 'expected exactly one search loop, found %d' % len(fors), function=f.sig, expr='loops')
+    other = [n for n in f.all_nodes({'CXXForRangeStmt', 'WhileStmt', 'DoStmt'})]
+    algo = [n for n in f.calls() if n['callee']['qname'] in ('std::find_if', 'std::find', 'std::distance', 'std::any_of')]
+    if len(fors) != 1 or other or algo:
+        res.undecided('index-by-name', inst, f.loc(), 'the name search is not written as one counted index loop (range-for / std algorithm / several loops): the first-exact-match rule cannot be read off',
+                      function=f.sig, expr='loops')
         return None
     lf = normal_for(f, fors[0]['id'])
     if lf is None:
-        res.viol('index-by-name', inst, f.loc(fors[0]['id']), 'search loop is not in normal form (i = 0; i < size; ++i)', function=f.sig, expr='normal-form')
+        res.undecided('index-by-name', inst, f.loc(fors[0]['id']), 'search loop is not in normal form (T i = start; i < bound; ++i with i unmodified)', function=f.sig, expr='normal-form')
         return None
     if lf['start_cv'] != '0' or lf['op'] != '<':
         res.viol('index-by-name', inst, f.loc(fors[0]['id']),
@@ -426,6 +429,14 @@ def run(prog, tier):
 
 
 def trimmed_store(f, nid, rhs, cls):
+    # stored first, then trimmed in place: removeTrailingSpaces(_name) on every path from the store to the normal exit
+    g0 = f.events()
+    sv0 = g0.vertex_of.get(nid)
+    R0 = Renderer(f)
+    tv = {g0.vertex_of.get(n['id']) for n in f.calls() if n['callee']['qname'] == 'ezc3d::removeTrailingSpaces' and R0.render(n['args'][0]) == 'this._name'}
+    tv.discard(None)
+    if sv0 is not None and tv and g0.NEXIT not in g0.reach([sv0], avoid=tv):
+        return True, 'trimmed in place by ezc3d::removeTrailingSpaces(_name) on every path after the store'
     if rhs is None:
         return False, 'name modified in place'
     kind, path = root_of(f, rhs)
@@ -498,6 +509,8 @@ def check_by_name(prog, res, f, cls_pos, cls_idx, vecs):
                 ok = True
     if ok:
         res.ok('by-name', inst, f.loc(rets[0]['id']), 'positional(indexByName(name)) on container %s' % cont, function=f.sig, expr='all')
+    elif i['k'] == 'CXXMemberCallExpr' and any(g.usr == i['callee']['usr'] and c is None for g, c in cls_idx):
+        res.undecided('by-name', inst, f.loc(rets[0]['id']), 'goes through an index-by-name function whose search could not be read', function=f.sig, expr='inner')
     else:
         res.viol('by-name', inst, f.loc(rets[0]['id']),
                  'index is not indexByName(name) over the same container (%s): name and position look-ups may disagree' % cont, function=f.sig, expr='inner')
